@@ -242,7 +242,8 @@ mutual
                   if p.isEmpty then none
                   else match Path.getAllOf p doc with
                     | [] => some { v := .j (.bool false) }
-                    | x :: _ => some { v := .j x }
+                    | [x] => some { v := .j x }
+                    | xs => some { v := .j (.arr xs) }   -- any-match over several matches, as for a plain path
             | _ => none
           else
             if rd.isSome then none else
